@@ -68,6 +68,12 @@ def dispatch_ok(value: T, pc, evs: T) -> bool:
     first_id = T("attr", (T("sub", (evs, const(0))), "eventid"))
     names = [(T("sub", (tc, first_id)), "in")] + \
         [(T("call", (T("attr", (tc, "get")), (first_id,) + d, ())), "get") for d in ((), (const(None),))]
+    # trace_codes.get(id, <module-level sentinel>): the same lookup, its miss tested with `is SENTINEL` (which the
+    # interpreter has already turned into `id not in trace_codes`)
+    for x in sym.walk(value):
+        if x.op == "call" and x.a[0] == T("attr", (tc, "get")) and len(x.a[1]) == 2 and x.a[1][0] == first_id \
+                and x.a[1][1].op == "global" and x.a[1][1].a[0].startswith("pykdebugparser."):
+            names.append((x, "in"))
     a = guards.assumptions(pc)
     for name, nkind in names:
         in_table = render.assume_lookup(a, T("cmp", ("in", first_id, tc))) is True
@@ -488,6 +494,11 @@ def check(repo: Repo, run: Run) -> None:
                 conds.append(T("cmp", ("in", alt_name, trace_reg)))
                 # the registry's keys are strings: `name is not None and name in registry` says no more than `name in registry`
                 conds.append(T("bool", ("and", (T("cmp", ("is not", alt_name, const(None))), T("cmp", ("in", alt_name, trace_reg))))))
+            # trace_codes.get(id, SENTINEL) with a module-level object() nobody registers a decoder under
+            for x in sym.walk(got):
+                if x.op == "call" and x.a[0] == T("attr", (tc, "get")) and len(x.a[1]) == 2 and x.a[1][0] == eid \
+                        and x.a[1][1].op == "global" and x.a[1][1].a[0].startswith("pykdebugparser."):
+                    conds.append(T("cmp", ("in", x, trace_reg)))
             ok = any(normal.bool_equiv(chosen, c) is True for c in conds)
     if not ok and direct_dispatch is not None:
         # no table: the alternatives are direct calls of the action methods; for every qualifier value the action of that
